@@ -28,6 +28,16 @@ def parseDev (fl : Flavor) (s : String) : Option Dev :=
     some { source := src, name := name, claimTimer := Sched.disabled fl, endSource := if src > 0 then src - 1 else 251 }
   | _ => none
 
+/-- "prio:len:hex" → the information message the node answers with -/
+def parseInfo (pgn : Nat) (s : String) : Option Msg :=
+  match s.splitOn ":" with
+  | [p, l, h] => do
+    let prio ← nat? p
+    let len ← nat? l
+    let data ← hexBytes? h
+    some { prio := prio, pgn := pgn, src := 0, dst := 255, len := len, data := data }
+  | _ => none
+
 def takeSent (n : Node) : Node × List Frame :=
   ({ n with s := { n.s with drv := { n.s.drv with sent := [] } } }, n.s.drv.sent)
 def takeOut (n : Node) : Node × List Delivery := ({ n with out := [] }, n.out)
@@ -35,7 +45,7 @@ def takeOut (n : Node) : Node × List Delivery := ({ n with out := [] }, n.out)
 def stateStr (n : Node) : String :=
   let ds := (List.range n.s.devs.length).map fun i =>
     let t := n.tp i
-    s!"d{i}:{t.pend.pgn}:{t.pend.dst}:{t.pend.len}:{t.nextSeq}:{boolStr (t.timer.isEnabled n.s.flavor)}:{boolStr t.hasPending}"
+    s!"d{i}:{t.pend.pgn}:{t.pend.dst}:{t.pend.len}:{t.nextSeq}:{boolStr (t.timer.isEnabled n.s.flavor)}:{boolStr t.hasPending}:{boolStr (n.info i).pendProd.isSome}:{boolStr (n.info i).pendConf.isSome}"
   let ss := (List.range n.slots.length).map fun i =>
     match n.slots[i]? with
     | none => ""
@@ -102,6 +112,10 @@ def step (e : Eng) (w : List String) : Eng × String :=
         | _, _, _, _, _, _ => (e, "bad-op")
       | _ => (e, "bad-op")
     else (e, "bad-op")
+  | ["info", p, c] =>
+    match parseInfo 126996 p, parseInfo 126998 c with
+    | some pm, some cm => withNode e fun n => ({ n with prod := pm, conf := some cm }, "ok")
+    | _, _ => (e, "bad-op")
   | ["node", k] => match nat? k with
     | some k => if k < 2 ∧ (e.w.nodes k).isSome then ({ e with w := { e.w with cur := k } }, "ok") else (e, "bad-op")
     | none => (e, "bad-op")
